@@ -193,6 +193,13 @@ def h_routing(ctx):
         ctx.assume(v > 0)
     damping = ctx.real("damping")
     ctx.assume(damping > 0)
+    if cfg.get("mem"):
+        # same logical arrays, other memory layouts: weights column-major / transposed view, data as given in cfg
+        from symx.harness import relayout
+
+        w0 = relayout(w0, cfg["mem"])
+        if cfg.get("mem_data"):
+            d0 = relayout(d0, cfg["mem_data"])
     old = modobj.least_squares
     modobj.least_squares = rec
     try:
@@ -218,6 +225,8 @@ def h_routing(ctx):
                 w1 = ctx.reals("w1", sh)
                 for v in w1.ravel():
                     ctx.assume(v > 0)
+                if cfg.get("mem"):
+                    w1 = relayout(w1, "T" if cfg["mem"] == "F" else "F")
                 fcv = (np.array([0.1, 1.9]), np.array([0.2, 2.2])) if cfg.get("forces") else None
                 est = vd.VectorSpline2D(poisson=0.3, mindist=1.0, damping=None if cfg.get("undamped") else damping, force_coords=fcv)
                 est.fit((e, n), (d0, d1), (w0, w1) if cfg["weights"] else None)
@@ -288,6 +297,9 @@ def _cfg_route(tier, seed):
         {"kind": "spline", "shape": (2, 2), "weights": True, "forces": True, "undamped": True},
         {"kind": "vector", "shape": (2, 2), "weights": True, "forces": True, "undamped": True},
         {"kind": "spline", "shape": (3,), "weights": True, "undamped": True},
+        {"kind": "trend", "degree": 1, "shape": (2, 2), "weights": True, "mem": "F"},
+        {"kind": "spline", "shape": (2, 2), "weights": True, "mem": "T", "mem_data": "F"},
+        {"kind": "vector", "shape": (2, 2), "weights": True, "mem": "F"},
     ]
     return out
 
